@@ -937,9 +937,9 @@ fn srv_main(a: &Args) {
         logs.push(LogFile { path, msgs: vec![], big: n_fat, orig: Arc::new(msgs), pad: Arc::new(pad) });
         let li = logs.len() - 1;
         let stalls: Vec<(u64, bool, Vec<F>)> = if a.has("--all-stalls") {
-            vec![(3000, true, vec![]), (6000, false, vec![lit("neg", true, "", "APIB", "")]), (6000, true, vec![]), (3000, false, vec![lit("event", true, "ECUA", "", "")])]
+            vec![(6000, false, vec![]), (3000, true, vec![]), (6000, true, vec![lit("neg", true, "", "APIB", "")]), (4000, false, vec![lit("event", true, "ECUA", "", "")])]
         } else {
-            vec![(3000, true, vec![])]
+            vec![(6000, false, vec![])] // (the socket buffers take some MB: a stall of 3 s can pass unnoticed even by a server that gives up after 1 s)
         };
         for (ms, mid, filt) in stalls {
             cases.push(SrvCase {
